@@ -56,9 +56,20 @@ type AccessBook struct {
 // through the resource's cache queue becomes processable: the queue of a
 // resource is suspended while query requests for it are outstanding (C13).
 func (b *AccessBook) effT(name string, t int) int {
-	for _, iv := range b.locks[name] {
-		if t > iv[0] && t < iv[1] {
-			return iv[1]
+	held := false
+	for again := true; again; {
+		again = false
+		for _, iv := range b.locks[name] {
+			if t > iv[0] && t < iv[1] {
+				t, held, again = iv[1], true, true
+				break
+			}
+			// a query event that was queued during the lock takes the lock again the
+			// moment it is released: what was queued behind it keeps waiting
+			if held && iv[0] > t && b.w.stepOfT(iv[0]) == b.w.stepOfT(t) {
+				t, again = iv[1], true
+				break
+			}
 		}
 	}
 	return t
